@@ -30,7 +30,7 @@ CHECKS = {
     "C18": dict(level="exploration", ref="6 (C18)", technique="runtime monitor: outside observation of execution (marker file) against a reference predicate, exhaustive grid",
                 text="Exhaustive owner x group x 512 modes x {direct, symlink} grid through the real SafeCmdExecution and the cmd sensor/fan entry points; each file is a "
                      "script that leaves a marker, so 'was executed' is observed independently of fan2go's return value; ownership/mode flips between consecutive calls; "
-                     "config-file rule grid.",
+                     "config-file rule grid. Process level: the real binary's CLI sub-commands and `config validate` with trusted / untrusted configuration files.",
                 note="Runs as root. Trusted base: harness, /bin/sh, chown/chmod semantics of the scratch file system (tmpfs)."),
     "C19": dict(level="fault_enumeration", ref="6 (C19)", technique="runtime monitor: failure-mode enumeration with elapsed-time and result oracle (wall clock with grey zone)",
                 text="Every listed failure mode x several timeouts is executed for real through SafeCmdExecution and the wrappers; oracle: no panic, (output, nil) or "
